@@ -9,25 +9,94 @@ TRUST = ("Trusted base: go/packages+go/types+go/ssa (x/tools v0.29.0, vendored) 
          "the specification tables of DESIGN.md Appendix A/B (typing rules, element semantics, VJP table) encoded in checker/spec; "
          "the checker's own algebra (polynomial normaliser, Fourier-Motzkin refutation). No repository code is executed.")
 
+AI = "abstract interpretation of go/ssa"
+SHAPE = ("Shape engine: the real public method (validators, dims helpers, gradient-context attachment) is interpreted with every dimension 1 or a symbolic size, "
+         "symbolic integer arguments and forking on undetermined branches (own Fourier-Motzkin refutation); error-ness and result shape are compared with the specification, disagreements come with an integer witness. ")
+DATA = ("Labelled-element engine: shapes concrete and small (sizes 1..3; ranks to 3 plus selected rank-4/5 shapes; thorough: rank 4), every operand element a distinct symbol, the WHOLE implementation "
+        "including the nested-[]any data layer interpreted; each result element must have the specification's normal form at that position. Universal in element values, bounded in shapes. ")
 claimed = {
+ 'C01': dict(
+   text=("Structural rules on the back-propagation walk for ALL graphs (S2a: every recursion is guarded by state written inside the cycle - visited mark / pending counter; S2b: gradients are accumulated by Add or first-assigned under a nil test; "
+         "S2c: tracked-test and spent-mark dominate every application of a backward rule; S2d; S1d late gradient reads) plus abstract interpretation of the REAL BackPropagate on enumerated DAG templates (all programs of <=2 (thorough 3) point-wise steps over 1-2 leaves, "
+         "hand-picked diamonds/ladders/fan-outs/multi-root/same-operand-twice templates, seeded random deeper ones): every leaf's accumulated gradient must equal the symbolic derivative of the root's composite expression and the number of rule applications must not exceed the edge count."),
+   note=TRUST + " Value equality is established per enumerated template, the structural rules for all graphs; reverse-topological order of an arbitrary walk is not proven beyond the templates.",
+   technique="call-graph/dominance rules on the walk + " + AI + " of BackPropagate on enumerated DAG templates vs symbolic differentiation",
+   ref="4/C01, 3.1 S2"),
  'C02': dict(
    text=("Abstract interpretation of the real public method (validators, dims helpers, gradient-context constructor) and of every backward closure it wires, "
-         "per operation and per symbolic-shape instance: no error/panic path, gradient shape == operand shape for all sizes (FM-decided), element expression equal "
+         "per operation and per symbolic-shape instance and for every subset of tracked operands: no error/panic path, gradient shape == operand shape for all sizes (FM-decided), element expression equal "
          "(normal form) to the operation's vector-Jacobian product, interval-finite on the differentiable range incl. Pow(0|1|2) at base 0. Universal over dimension "
-         "sizes; ranks/argument forms enumerated to the tier bound. Structural necessary-and-more condition of C02, not a proof about floating point."),
-   note=TRUST + " Element positions produced by the data layer are not decided (C03-C06 scope).",
-   technique="abstract interpretation of go/ssa (symbolic shapes + element expressions + intervals) against a VJP table",
+         "sizes; ranks/argument forms enumerated to the tier bound. A necessary-and-more condition of C02, not a proof about floating point."),
+   note=TRUST + " Element positions produced by the data layer are not decided here (C03-C06).",
+   technique=AI + " (symbolic shapes + element expressions + intervals) against a VJP table",
    ref="4/C02, 3.2"),
+ 'C03': dict(text=SHAPE + DATA + "Comparison kernels are evaluated under the five order classes of a-b (far/within-tolerance above, tie, within-tolerance/far below); implicit expansion is shown to go through the public Broadcast on both operands before the kernel.",
+   note=TRUST + " Shapes beyond the enumerated bound and floating-point rounding are not decided.",
+   technique=AI + ": symbolic-shape guard/shape contracts + labelled-element interpretation of kernels and the broadcast generator", ref="4/C03"),
+ 'C04': dict(text=SHAPE + DATA + "Covers MatMul (batch broadcasting, inner kernel index roles), Dot and Transpose incl. rank>=3 batches with unit and unequal leading dimensions.",
+   note=TRUST + " Shapes beyond the enumerated bound are not decided.",
+   technique=AI + ": symbolic-shape contracts + labelled-element interpretation of the contraction kernels and generators", ref="4/C04"),
+ 'C05': dict(text=SHAPE + DATA + "Covers the seven *Along reducers for every dim and the whole-tensor statistics (unbiased variance, 0 for one element).",
+   note=TRUST + " Numerical stability (algebraically equal rewrites such as a one-pass variance) is NOT decided - seeded change C05-3 is a documented miss.",
+   technique=AI + ": symbolic-shape contracts + labelled-element interpretation of folds and the reduced-dimension generator", ref="4/C05"),
+ 'C06': dict(text=SHAPE + DATA + "Covers At, Slice (every mix of omitted/{0,0}/explicit ranges), Patch (every source size and offset), Concat (2-3 operands, every dim), Reshape/Flatten/(Un)Squeeze/Broadcast, Full/Zeros/Ones/Eye, TensorOf on rectangular and ragged nested data of depth 0..4, NElems/Shape.",
+   note=TRUST + " Shapes beyond the enumerated bound are not decided.",
+   technique=AI + ": symbolic-shape contracts + labelled-element interpretation of copiers, generators and constructors", ref="4/C06"),
  'C07': dict(
    text=("Same engine on Broadcast: for every source/target pattern (new leading axes, expanded unit axes, both, factor 1) the closure's element expression must equal "
          "the SUM of the upstream gradient over the expanded copies, with the source's shape; plus the routing rule that every implicit expansion in Add/Sub/Mul/Div/Dot/MatMul "
-         "reaches the operand through a tensor produced by the public Broadcast. Today's tree averages instead of summing (known finding D2, pinned by TestBroadcast)."),
+         "reaches the operand through a tensor produced by the public Broadcast (any gradient failure of an implicitly expanding instance is reported here). Today's tree averages instead of summing (known finding D2, pinned by TestBroadcast)."),
    note=TRUST,
-   technique="abstract interpretation of go/ssa: reducer kind and axes of the Broadcast backward closure; def-use routing of implicit expansions",
+   technique=AI + ": reducer kind and axes of the Broadcast backward closure; provenance routing of implicit expansions",
    ref="4/C07"),
+ 'C08': dict(
+   text=("For every public operation and every combination of (tracked, spent) flags of its operands the attached context is interpreted and compared with the rule; S1a/S1c edge structure; the real BackPropagate interpreted on DAG templates (exactly the root and its tracked ancestors end spent with a gradient, gradients untracked, nothing else touched, untracked root changes nothing); ResetGradContext in every prior state; "
+         "S3 field-write ownership and gctx read inventory (tracking cannot change forward values)."),
+   note=TRUST + " Provisos (a),(b) of the quantifier are caller preconditions and are not checked.",
+   technique=AI + " of the gradient-context constructors and the walk over all flag combinations; field-write ownership dataflow", ref="4/C08"),
+ 'C09': dict(
+   text=("Every public entry point is interpreted with symbolic/unconstrained integer arguments, nil values and every configuration case: Tensor methods (error iff precondition, defined shape, no reachable panic: index/slice bounds, nil dereference, failed assertion, explicit panic), package tensor constructors, TensorOf on ragged data, Concat/BackPropagate on nil lists/tensors, component constructors and Forward/Compute/Accumulate/Update/Init with invalid inputs."),
+   note=TRUST + " Termination beyond the interpreter's step budget, typed-nil pointers inside interfaces and integer overflow are not decided.",
+   technique=AI + ": guard contracts (error iff precondition) and panic reachability on symbolic arguments", ref="4/C09"),
+ 'C10': dict(
+   text=("S4 write provenance over every Store/MapUpdate/copy/append of the library (each write targets memory allocated by the same call, obligations on parameters discharged at every caller); S5 retention of caller slices (no store, escaping capture or return of a caller's slice header; returned slices fresh); S3 ownership of tensor/context fields; plus a store observer in every interpreted run that flags any write to a cell existing before the call. A sound effect argument for all programs and histories."),
+   note=TRUST + " S4/S5 assume out-of-module callees (fmt, math, gonum) neither write through nor retain their arguments.",
+   technique="points-to / provenance and taint dataflow over go/ssa (write provenance, caller-slice retention, field ownership)", ref="4/C10, 3.4"),
+ 'C12': dict(
+   text=("The real Compute methods are interpreted over abstract tensors; the scalar's element expression must have the normal form of the definition (MSE, BCE, CE with both clips and eps = 1e-12), shape rank 0 for every batch/class size, interval-finite and non-negative over [-1e6,1e6]; tracked and untracked inputs; invalid inputs rejected; the tensor implementation never reads a gradient context (values cannot depend on tracking)."),
+   note=TRUST + " Floating-point rounding is not decided.",
+   technique=AI + " of the loss compositions against the defining formulas (normal forms + intervals)", ref="4/C12"),
+ 'C14': dict(
+   text=("Forward of each activation interpreted over abstract tensors against its definition: Relu, LeakyRelu (symbolic slope, default 0.01, 0, negative, >1), Sigmoid, Tanh, Softmax for EVERY dim < rank with the sum along dim normalising to exactly 1 and a non-negative interval; ranks 0..3 (thorough 5); invalid inputs and dims rejected."),
+   note=TRUST + " Overflow beyond |x|<=700 and rounding are not decided.",
+   technique=AI + " of the activation compositions against the defining formulas", ref="4/C14"),
+ 'C16': dict(
+   text=("FC.Forward interpreted with W and B replaced (twice, after a first Forward) through the pointers returned by Weights(): y[b][o] = W[o]*sum_d x[b][d] + B[o] with the CURRENT parameters, shape [batch, Outputs], for symbolic and unit sizes; Weights() returns pointers to the layer's own fields; defaults, validation. Gradient clause: compositional (C01, C02, C07) - the weight gradient inherits known finding D2."),
+   note=TRUST,
+   technique=AI + " of FC.forward against the affine formula; pointer identity of Weights()", ref="4/C16"),
+ 'C17': dict(
+   text=("SGD.Update interpreted: the tensor behind the pointer becomes w - lr*g (lr symbolic, default 0.01, 0, negative; every finite w and g), same shape, ranks 0..3 (thorough 5); the only store goes through the given pointer (store observer: previous tensor and gradient untouched); nil pointer / nil tensor / missing gradient give an error and replace nothing."),
+   note=TRUST,
+   technique=AI + " of Update + store observation", ref="4/C17"),
+ 'C18': dict(
+   text=("Each initializer's constructor and Init interpreted with symbolic configs: tensor built by the matching constructor with exactly the requested shape, tracked, parameters of the defined normal form (He/Xavier formulas, defaults); RandU/RandN interpreted completely on small shapes: one distinct fresh draw per element from Uniform{Min:l,Max:u}/Normal{Mu,Sigma}; no explicit Src, no private generator."),
+   note=TRUST + " gonum's distributions are trusted; convergence of sample moments and independence are statistical and NOT decided.",
+   technique=AI + " of initializers (parameter plumbing, scale formulas, per-element draws) + RNG-source rule", ref="4/C18"),
+ 'C19': dict(
+   text=("Accuracy interpreted over sequences of batches with symbolic sizes: total = sum of sizes, correct = sum over batches of the equality mask, Result = correct/total (0 before any batch) - additive updates make it partition-independent; rejected calls, also interleaved, leave both counters unchanged."),
+   note=TRUST + " A one-ulp rounding of k/n*n (seeded change C19-2) is a documented miss.",
+   technique=AI + " of Accumulate/Result against the counting formulas; no-store-on-error", ref="4/C19"),
+ 'C20': dict(
+   text=("Sound effect argument: S4 (every forward write targets memory allocated by that call) + S8 (no reference-typed or post-init-written package state, distributions built without Src, no private generator) + S3 (no forward operation writes a field of an existing tensor/context) + S2c (the walk tests `tracked` before writing): concurrent forward computations only read shared tensors."),
+   note=TRUST + " gonum's global source being locked is assumed.",
+   technique="effect analysis: write provenance + shared-state inventory + field ownership over go/ssa", ref="4/C20"),
 }
 
-reasons_na = {}
+reasons_na = {
+ 'C11': "compositional over C01, C02, C07, C08, C10, C16, C17 (each claimed separately); the end-to-end trajectory clause is not yet decided by its own check - build in progress",
+ 'C13': "compositional over C12, C01, C02 (each claimed separately); an end-to-end check of the loss gradients through the real BackPropagate is being built",
+ 'C15': "compositional over C14, C01, C02 (each claimed separately); an end-to-end check of activation gradients through the real BackPropagate is being built",
+}
 checks = []
 for pid in ids:
     if pid not in claimed:
